@@ -1002,6 +1002,18 @@ func (s *Store[K, V]) Persist(version uint64, writer io.Writer) error {
 
 func (s *Store[K, V]) insertSimple(entry *Entry[K, V]) {
 	_, index := s.index(entry.key)
+	// the cache may hold the key already (LoadCache into a cache in use): the
+	// restored entry replaces that one, which leaves the policy and the timer
+	// wheel as well instead of staying behind as an entry nobody can find
+	if old, ok := s.shards[index].get(entry.key); ok && old != entry {
+		old.flag.SetRemoved(true)
+		if old.meta.prev != nil {
+			s.policy.Remove(old, false)
+		}
+		if old.meta.wheelPrev != nil {
+			s.timerwheel.deschedule(old)
+		}
+	}
 	s.shards[index].set(entry.key, entry)
 	if entry.expire.Load() != 0 {
 		s.timerwheel.schedule(entry)
@@ -1094,7 +1106,9 @@ func (s *Store[K, V]) Recover(version uint64, reader io.Reader) error {
 	// restored is a prefix from the most recently used end and never more than fits
 	var windowFull, probationFull, protectedFull bool
 	// room reports whether an entry of the given weight may still be restored
-	// into a cache of the saved size
+	// without exceeding the total capacity: the only bound when loading into a
+	// cache of the saved size, and needed on top of the per-region bounds when
+	// the cache is already in use (its regions may be above their nominal share)
 	room := func(weight int64) bool {
 		return s.policy.weightedSize+uint(weight) <= s.policy.capacity
 	}
@@ -1165,7 +1179,7 @@ func (s *Store[K, V]) Recover(version uint64, reader io.Reader) error {
 				if expire != 0 && expire < s.timerwheel.clock.NowNano() {
 					continue
 				}
-				if (sameSize && room(pentry.PolicyWeight)) || (!sameSize && !windowFull && s.policy.window.Len()+int(pentry.PolicyWeight) <= int(s.policy.window.capacity)) {
+				if room(pentry.PolicyWeight) && (sameSize || (!windowFull && s.policy.window.Len()+int(pentry.PolicyWeight) <= int(s.policy.window.capacity))) {
 					entry := pentry.entry()
 					s.policy.window.PushBack(entry)
 					s.insertSimple(entry)
@@ -1194,7 +1208,7 @@ func (s *Store[K, V]) Recover(version uint64, reader io.Reader) error {
 				}
 				l1 := s.policy.slru.protected
 				l2 := s.policy.slru.probation
-				if (sameSize && room(pentry.PolicyWeight)) || (!sameSize && !probationFull && l1.len+l2.len+pentry.PolicyWeight <= int64(s.policy.slru.maxsize)) {
+				if room(pentry.PolicyWeight) && (sameSize || (!probationFull && l1.len+l2.len+pentry.PolicyWeight <= int64(s.policy.slru.maxsize))) {
 					entry := pentry.entry()
 					l2.PushBack(entry)
 					s.insertSimple(entry)
@@ -1222,7 +1236,7 @@ func (s *Store[K, V]) Recover(version uint64, reader io.Reader) error {
 					continue
 				}
 				l := s.policy.slru.protected
-				if (sameSize && room(pentry.PolicyWeight)) || (!sameSize && !protectedFull && l.len+pentry.PolicyWeight <= int64(l.capacity)) {
+				if room(pentry.PolicyWeight) && (sameSize || (!protectedFull && l.len+pentry.PolicyWeight <= int64(l.capacity))) {
 					entry := pentry.entry()
 					l.PushBack(entry)
 					s.insertSimple(entry)
